@@ -306,6 +306,8 @@ def slicing_a_product_at_its_own_variable_does_not_inherit_the_volume_of_the_who
     S.forall("the-original-still-reports-the-user-volume", v1, lambda q: v1.at(q) == uv.value_terms([zreal(Tt.val.at([q[0], ()]))])[0])
 
 
+@scenario("C01", [ops.PROD + ".__call__", ops.PROD + "._create_point_data", ops.PROD + ".sample_random_uniform"], configs=["keywords-in-reverse-space-order"], bounded=BOUND, name="samples_of_a_product_sliced_at_a_two_variable_factor_carry_the_values_of_the_same_name")
+@scenario("C05", [ops.PROD + ".__call__", ops.PROD + "._create_point_data", ops.PROD + "._contains"], configs=["keywords-in-reverse-space-order"], bounded=BOUND, name="membership_in_a_product_sliced_at_a_two_variable_factor_binds_the_values_by_name")
 @scenario("C17", [ops.PROD + ".__call__", ops.PROD + "._create_point_data"], configs=["keywords-in-reverse-space-order"], bounded=BOUND)
 def product_fixing_a_factor_with_two_variables_binds_the_values_by_name(S):
     """(A over p, q) x (B over y), evaluated at q = Q0, p = P0 with the keywords NOT in the order of the factor's space
@@ -329,6 +331,13 @@ def product_fixing_a_factor_with_two_variables_binds_the_values_by_name(S):
     absz = lambda e: z3.If(e >= 0, e, -e)
     S.forall("accepts-the-fixed-values-by-name", res, lambda q: z3.Implies(z3.And(col(q, 0) == p0, col(q, 1) == q0.t, B.in_pred([col(q, 2)], [])), res.at(q)))
     S.forall("rejects-points-far-from-the-value-of-the-same-name", res, lambda q: z3.Implies(res.at(q), z3.And(absz(col(q, 0) - p0) <= (absz(p0) + 1) / 100, absz(col(q, 1) - q0.t) <= (absz(q0.t) + 1) / 100)))
+    # sampling the slice: every sampled row carries p = P0, q = Q0 (by name) and a point of B
+    n = S.int("n", 1)
+    smp = tensor_of(S.method(d2, "sample_random_uniform", n))
+    ok = smp.rank == 2 and smp.shape[1].concrete() == 3
+    S.ensure("samples-have-the-columns-p-q-y", ok and smp.shape[0].size_term() == zint(n))
+    if ok:
+        S.forall("sampled-rows-carry-the-fixed-values-of-the-same-name-and-a-point-of-B", Tensor(smp), lambda q: z3.And(zreal(smp.at([q[0], (0,)])) == p0, zreal(smp.at([q[0], (1,)])) == q0.t, B.in_pred([zreal(smp.at([q[0], (2,)]))], [])), extra_hyps=lambda q: S.schema_instances([q[0]]))
 
 
 @scenario("C17", [DPKG + "domain1D.interval.IntervalSingleBoundaryPoint.__call__"], configs=["left", "right"], bounded=BOUND)
